@@ -59,6 +59,7 @@ def eval_case(case):
 def _eval_seed(seed, n, mode, spelling):
     seed_id = seed.id
     seps = spelling.endswith("+seps")
+    desc = spelling.endswith("+desc")  # the patterns of one file are given in descending line order
     spelling = spelling.split("+")[0]
     ms = multisite.build(seed, n, wrap=1 if seps else 0)
     if ms is None:
@@ -118,7 +119,7 @@ def _eval_seed(seed, n, mode, spelling):
         # every subset file has its own top-level directory (so that a 'dir/*.py' glob addresses exactly one file)
         path = (f"d{i}/deep/site{i}.py" if i % 2 else f"site{i}.py")
         files[path] = data
-        for c in sub:
+        for c in (reversed(sub) if desc else sub):
             pats.append(spell(spelling, path, site_lines[c]))
         expect[path] = sorted(set(range(n)) - set(sub)) if mode == "exclude" else sorted(sub)
         if "/" not in path and mode == "exclude" and spelling in ("relative", "glob-cross"):
@@ -127,6 +128,8 @@ def _eval_seed(seed, n, mode, spelling):
             files[twin] = data
             expect[twin] = list(range(n))
     flag = "--path-exclude" if mode == "exclude" else "--path-include"
+    if desc:
+        pats = list(reversed(pats))
     obs = run(files, [flag, ",".join(pats)] if pats else [], list(files))
     if obs.exit != 0:
         return out + [(f"{tag}|{mode}|exit", f"exit {obs.exit}: {obs.stderr[-1][-200:]}")], {"usable": True}
@@ -210,7 +213,7 @@ def cases(tier):
     out = []
     for cm in sorted(candidate_seeds()):
         for mode in ("exclude", "include"):
-            for sp in (SPELLINGS if tier == "thorough" else SPELLINGS[:3]) + ["relative+seps"]:
+            for sp in (SPELLINGS if tier == "thorough" else SPELLINGS[:3]) + ["relative+seps", "relative+desc"]:
                 out.append((cm, n, mode, sp))
     return out + hist_cases(tier)
 
